@@ -10,6 +10,15 @@ Open Scope N_scope.
 Section S.
   Variable d : dev.
   Variable N : nat.
+  Variable dk : str -> kind.
+  Local Notation flat_argdef := (ParseSchemaComplete.flat_argdef dk).
+  Local Notation flat_argdefs := (ParseSchemaComplete.flat_argdefs dk).
+  Local Notation flat_fielddef := (ParseSchemaComplete.flat_fielddef dk).
+  Local Notation flat_inputvalue := (ParseSchemaComplete.flat_inputvalue dk).
+  Local Notation flat_enumval := (ParseSchemaComplete.flat_enumval dk).
+  Local Notation flat_defbody := (ParseSchemaComplete.flat_defbody dk).
+  Local Notation flat_dirdefbody := (ParseSchemaComplete.flat_dirdefbody dk).
+  Local Notation flat_item := (ParseSchemaComplete.flat_item dk).
 
   Definition default_wok (dv : option value) : Prop := match dv with Some v => vt_ok v /\ has_var v = false | None => True end.
   Definition argdef_wok (a : argdef) : Prop := default_wok a.(ad_default) /\ dirs_wok true a.(ad_dirs).
@@ -185,18 +194,18 @@ Section S.
   Qed.
 End S.
 
-(* the entry point as it is *)
-Theorem parseSchema_complete_entry : forall d items input ix bi,
-  Forall (item_wok d) items -> (items <> [] \/ d F_S7 = true) -> toks d input (flat_map flat_item items) ->
+(* the entry point as it is; dk says how each description is written (quoted or block string) *)
+Theorem parseSchema_complete_entry : forall d (dk : str -> kind) items input ix bi,
+  (forall s, dk s = String_ \/ dk s = BlockString) ->
+  Forall (item_wok d) items -> (items <> [] \/ d F_S7 = true) -> toks d input (flat_map (flat_item dk) items) ->
   exists doc', parseSchema d 0 ix bi input = POk doc' /\ erase_sdoc doc' = erase_sdoc (with_builtin bi (sdoc_of items)).
 Proof.
-  intros d items input ix bi Hw Hne Ht. pose proof (toks_len d input _ Ht) as Hl. set (N := query_fuel input).
-  assert (HN : (length (flat_map flat_item items) < N)%nat) by (unfold N, query_fuel; lia).
+  intros d dk items input ix bi Hdk Hw Hne Ht. pose proof (toks_len d input _ Ht) as Hl. set (N := query_fuel input).
+  assert (HN : (length (flat_map (flat_item dk) items) < N)%nat) by (unfold N, query_fuel; lia).
   assert (Hok : Forall (item_ok d N N) items).
-  { rewrite Forall_forall in *. intros it Hin. apply item_ok_of; [exact (Hw it Hin)|]. pose proof (flat_map_member _ flat_item items it Hin). lia. }
+  { rewrite Forall_forall in *. intros it Hin. apply (item_ok_of d N dk); [exact (Hw it Hin)|]. pose proof (flat_map_member _ (flat_item dk) items it Hin). lia. }
   assert (Hn : (length items < N)%nat).
-  { pose proof (flat_map_count _ _ flat_item items ltac:(intros x Hx; rewrite Forall_forall in Hw; exact (item_nonempty d x (Hw x Hx)))). lia. }
-  destruct (parseSchema_complete d items input N ix bi Hok Hn Hne Ht) as [doc' [s [E Ed]]].
+  { pose proof (flat_map_count _ _ (flat_item dk) items ltac:(intros x Hx; rewrite Forall_forall in Hw; exact (item_nonempty d dk x (Hw x Hx)))). lia. }
+  destruct (parseSchema_complete dk Hdk d items input N ix bi Hok Hn Hne Ht) as [doc' [s [E Ed]]].
   exists doc'. split; [unfold parseSchema; fold N; rewrite E; reflexivity|exact Ed].
 Qed.
-
